@@ -1,4 +1,6 @@
 import Orca.Model.Builder
+import Orca.Gen.ApiOutline
+import Orca.Model.ApiOutlineSpec
 import Orca.Lemmas.Locals
 import Orca.Lemmas.Lower
 import Orca.Lemmas.Types
@@ -113,3 +115,11 @@ example :
       ∧ Lower.emit (plain (finish b).body) = ["local.get:0", "drop", "f32.const:1", "end"] := by decide
 
 end Orca.Builder
+
+/-- **The tie to the source (regenerated on every run).** The control-and-call skeletons of the functions this property rests on:
+    `finish_module_with_tag` and `add_local_func_with_tag` are what M14 was transcribed from. A step moved, an early exit, guard, call or assignment added or removed breaks this obligation; renaming, comments and
+    formatting do not. -/
+theorem c12_builder_code_reviewed :
+    Orca.Gen.ApiOutline.add_local_func_with_tag = Orca.ApiOutlineSpec.add_local_func_with_tag
+    ∧ Orca.Gen.ApiOutline.finish_module_with_tag = Orca.ApiOutlineSpec.finish_module_with_tag :=
+  ⟨rfl, rfl⟩
